@@ -339,6 +339,7 @@ static void print_event(const verif::Event& e, const char* var) {
 // --- slots ---------------------------------------------------------------------------------------------------
 struct slot_thread { bool worker; int rounds; unsigned short first_index; };
 static unsigned g_maxc = 2, g_reserved = 1;
+static std::atomic<int> g_inside_point{0};   // instrumented: a scheduling point while a thread is inside its slot
 static std::vector<slot_thread> g_sth;
 
 static bool slots_run_once(verif::Schedule& sch, int run_idx, bool print) {
@@ -367,9 +368,11 @@ static bool slots_run_once(verif::Schedule& sch, int run_idx, bool print) {
             if (g_sth[t].worker && idx < rs) { snprintf(buf, sizeof buf, "worker thread %zu occupies reserved slot %zu (reserved=%u)", t, idx, rs); gerr = buf; }
             owner[idx] = (int)t; ++inside;
             if (inside > (int)ns) { snprintf(buf, sizeof buf, "%d threads inside an arena of %u slots", inside, ns); gerr = buf; }
-            if (a.my_limit.a.load(std::memory_order_relaxed) < idx + 1) { snprintf(buf, sizeof buf, "my_limit %u does not cover occupied slot %zu", a.my_limit.a.load(std::memory_order_relaxed), idx); gerr = buf; }
+            for (unsigned k = 0; k < ns; ++k) if (owner[k] != -1 && a.my_limit.a.load(std::memory_order_relaxed) < k + 1) {
+                snprintf(buf, sizeof buf, "my_limit %u does not cover occupied slot %u (owner thread %d)", a.my_limit.a.load(std::memory_order_relaxed), k, owner[k]); gerr = buf; }
             td.my_arena_index = (unsigned short)idx;       // what attach_arena() records; next attempt starts from here
             verif::note("in", idx, 0);
+            (void)g_inside_point.load(std::memory_order_relaxed);    // other threads may run while this one is inside
             if (owner[idx] == (int)t) owner[idx] = -1;
             --inside;
             a.my_slots[idx].release();
